@@ -5,7 +5,10 @@ for name in "$@"; do
   dst=/verif/seeded/$name
   git -C /repo diff --quiet || { echo "/repo is dirty"; exit 2; }
   git -C /repo apply $dst/patch.diff || { echo "$name: patch does not apply"; continue; }
+  # evidence_backup: the evidence file must keep describing the unchanged tree
+  cp /verif/evidence/$prop.json /tmp/evidence_$prop.bak 2>/dev/null
   (cd /verif && ./check $prop quick > $dst/check_output.txt 2>&1); rc=$?
+  cp /tmp/evidence_$prop.bak /verif/evidence/$prop.json 2>/dev/null; rm -f /tmp/evidence_$prop.bak
   git -C /repo checkout -q -- .
   if [ $rc -eq 1 ] && grep -q "^VIOLATION property=$prop" $dst/check_output.txt; then detected=yes; else detected="no(rc=$rc)"; fi
   python3 - <<PY
